@@ -60,6 +60,15 @@ def validate_prims(rng):
         if any(cat[k] != (x[k] if k < len(x) else y[k - len(x)]) for k in range(len(cat))) or \
                 any(x[::-1][k] != x[n - 1 - k] for k in range(n)):
             fails.append("concatenate / [::-1]")
+        # numpy.fft.fft / ifft against the explicit sums of coq/Numeric/DFT.v (dft, idft)
+        z = np.array([complex(rng.uniform(-3, 3), rng.uniform(-3, 3)) for _ in range(n)])
+        kk, mm = np.meshgrid(np.arange(n), np.arange(n), indexing="ij")
+        W = np.exp(-2j * np.pi * kk * mm / n)
+        count += 2
+        if not np.allclose(np.fft.fft(z), W @ z, rtol=1e-9, atol=1e-9):
+            fails.append(f"fft is not the DFT sum (n={n})")
+        if not np.allclose(np.fft.ifft(z), (np.conj(W) @ z) / n, rtol=1e-9, atol=1e-9):
+            fails.append(f"ifft is not the inverse DFT sum (n={n})")
     return count, fails
 
 
